@@ -614,6 +614,9 @@ func (m *mrun) prepareSort(op Op) {
 	m.guard(func() {
 		O := r.ToObject(m.R)
 		n := int(r.ToUint32(r.Get(O, "length")))
+		if n > 64 {
+			panic(refarr.Budget{})
+		}
 		m.sortLen = n
 		if op.CB != nil {
 			m.sortCB = op.CB
